@@ -485,6 +485,16 @@ func (g *gen) rewritePkgRefs(info *types.Info, node ast.Node) ast.Node {
 	// Now that we have all the identifiers, rename any variables declared
 	// in this scope to not collide.
 	newNames := make(map[types.Object]string)
+	// A new name must not be spelled like any identifier the declaration
+	// already contains: a symbol of that name declared earlier would otherwise
+	// be renamed at its later uses only.
+	present := make(map[string]bool)
+	ast.Inspect(node, func(n ast.Node) bool {
+		if id, ok := n.(*ast.Ident); ok {
+			present[id.Name] = true
+		}
+		return true
+	})
 	inNewNames := func(n string) bool {
 		for _, other := range newNames {
 			if other == n {
@@ -526,7 +536,7 @@ func (g *gen) rewritePkgRefs(info *types.Info, node ast.Node) ast.Node {
 			return true
 		}
 		newName := disambiguate(objName, func(n string) bool {
-			if g.nameInFileScope(n) || inNewNames(n) {
+			if g.nameInFileScope(n) || inNewNames(n) || present[n] {
 				return true
 			}
 			if len(scopeStack) > 0 {
